@@ -1,5 +1,6 @@
 //! Configuration cases (C17); one process per case (the configuration is process-global).
-//! case: mode(0 entity, 1 yaml) sc_total iv_total sc iv
+//! case: mode(0 entity, 1 yaml, 2 the public init_with_config called after an earlier init_with_config of the defaults)
+//!       sc_total iv_total sc iv flush(metric log flush interval, 0 = metric log off)
 //! out : accepted(0/1) ; if accepted:
 //!       main reads (sc_total iv_total sc iv) ; a thread spawned afterwards reads (4) ;
 //!       a worker thread that had already read the configuration before it was installed reads (4) ;
@@ -39,6 +40,7 @@ pub fn run_case(t: &mut Toks) -> Vec<i128> {
     clock::set_ms(1_700_000_000_000);
     let mode = t.u64();
     let (sct, ivt, sc, iv) = (t.u32(), t.u32(), t.u32(), t.u32());
+    let flush = t.u32();
     // a long-lived worker that reads the configuration before it is installed, and again afterwards
     let (to_worker, worker_rx) = std::sync::mpsc::channel::<()>();
     let (worker_tx, from_worker) = std::sync::mpsc::channel::<Vec<i128>>();
@@ -49,8 +51,30 @@ pub fn run_case(t: &mut Toks) -> Vec<i128> {
         }
     });
     let _ = from_worker.recv();
-    let accepted = if mode == 0 {
+    let quiet = |e: &mut ConfigEntity| {
+        // no background collectors, metric log as the case says
+        e.config.log.metric.flush_interval_sec = flush;
+        e.config.stat.system.system_interval_ms = 0;
+        e.config.stat.system.load_interval_ms = 0;
+        e.config.stat.system.cpu_interval_ms = 0;
+        e.config.stat.system.memory_interval_ms = 0;
+    };
+    let accepted = if mode == 2 {
+        let mut e0 = ConfigEntity::new();
+        quiet(&mut e0);
+        e0.config.log.metric.flush_interval_sec = 0;
+        let first = sentinel_core::init_with_config(e0).is_ok();
         let mut e = ConfigEntity::new();
+        quiet(&mut e);
+        e.config.log.metric.flush_interval_sec = 0;
+        e.config.stat.sample_count_total = sct;
+        e.config.stat.interval_ms_total = ivt;
+        e.config.stat.sample_count = sc;
+        e.config.stat.interval_ms = iv;
+        first && sentinel_core::init_with_config(e).is_ok()
+    } else if mode == 0 {
+        let mut e = ConfigEntity::new();
+        e.config.log.metric.flush_interval_sec = flush;
         e.config.stat.sample_count_total = sct;
         e.config.stat.interval_ms_total = ivt;
         e.config.stat.sample_count = sc;
@@ -65,6 +89,7 @@ pub fn run_case(t: &mut Toks) -> Vec<i128> {
     } else {
         // the YAML route: serialise the default entity with the four values replaced
         let mut e = ConfigEntity::new();
+        e.config.log.metric.flush_interval_sec = flush;
         e.config.stat.sample_count_total = sct;
         e.config.stat.interval_ms_total = ivt;
         e.config.stat.sample_count = sc;
@@ -81,6 +106,8 @@ pub fn run_case(t: &mut Toks) -> Vec<i128> {
     };
     out.push(accepted as i128);
     if !accepted {
+        // a rejected configuration must leave the one in effect untouched
+        out.extend(reads());
         return out;
     }
     out.extend(reads());
